@@ -268,6 +268,7 @@ def run(prog, chk):
     detach_precondition(prog, chk, "C06.j", fs)
     raw_text_to_nul_readers(prog, chk, "C06.k", fs)
     stale_text_pointers(prog, chk, "C06.l", fs)
+    last_occurrence_scans(prog, chk, "C06.m", fs)
 
 
 def formatted_length(prog, chk, fs):
@@ -679,3 +680,31 @@ def stale_text_pointers(prog, chk, rid, fs):
     chk.ok(rid, "String", "%d locals holding text pointers in %d members examined; %d members may detach" % (n_carriers, len(fs), len(may)), "include/nstd/String.hpp", "call-graph closure", nontrivial=False)
     if len(may) < 6:
         raise AnalysisBroken("C06.l: may-detach summary has only %d members" % len(may))
+
+
+def last_occurrence_scans(prog, chk, rid, fs):
+    """findLast / findLastOf look for the LAST occurrence by repeating a forward search: occurrences may overlap ("aa" in "aaa"), so
+    the next search has to restart exactly one byte behind the previous hit - further on, and the true last occurrence is stepped over"""
+    chk.rule(rid, "FIN: in the last-occurrence searches the forward search is repeated from `hit + 1` (the restart offset evaluates to 1)", floor=2)
+    SEARCH = ("strstr", "strpbrk", "strchr", "String::find", "String::findOneOf", "memchr")
+    for f in fs:
+        if not f.short.startswith("findLast") or not f.blocks:
+            continue
+        for st in q.stores(f):
+            if st.op != "=" or st.rhs is None or not C.loop_blocks(f, st.node):
+                continue
+            l = f.nodes[st.lhs]
+            rn = f.nodes[f.strip(st.rhs)]
+            if l["k"] != "DeclRefExpr" or rn["k"] not in ("CallExpr", "CXXMemberCallExpr") or (rn.get("callee") or "") not in SEARCH:
+                continue
+            a0 = f.nodes[f.strip(q.call_args(f, rn["i"])[0])]
+            if a0["k"] != "BinaryOperator" or a0.get("op") != "+" or q.no_casts(f.r(a0["c"][0])) != l["ref"]["n"]:
+                chk.bad(rid, f, "last-occurrence-restart-shape", f.where(st.node), "the repeated search does not restart from `%s + 1`" % l["ref"]["n"])
+                continue
+            k = fin.eval_expr(f, a0["c"][1], {})
+            if k == 1:
+                chk.ok(rid, f, "search repeated from `%s + 1`" % l["ref"]["n"], f.where(st.node), f.r(st.node)[:60], evals=1)
+            else:
+                chk.bad(rid, f, "last-occurrence-restart-offset", f.where(st.node),
+                        "the search is repeated from `%s + %s`; unless that offset is exactly 1 an occurrence that overlaps the previous hit is "
+                        "stepped over (findLast(\"aaa\", \"aa\") answers 0 instead of 1)" % (l["ref"]["n"], q.no_casts(f.r(a0["c"][1]))[:30]), evals=1)
